@@ -27,6 +27,12 @@ fn main() {
                 Some("strict") => env.set_undefined_behavior(minijinja::UndefinedBehavior::Strict),
                 _ => {}
             }
+            if let Some(b) = req["trim_blocks"].as_bool() {
+                env.set_trim_blocks(b);
+            }
+            if let Some(b) = req["lstrip_blocks"].as_bool() {
+                env.set_lstrip_blocks(b);
+            }
             if let Some(sy) = req["syntax"].as_object() {
                 // custom delimiters: {"block": [start, end], "variable": [start, end], "comment": [start, end]}
                 let pair = |k: &str, d: (&str, &str)| -> (String, String) {
